@@ -23,6 +23,7 @@ enum Kind {
 	Q_ENQ = 1, Q_PROCESS, Q_PROCESSONE, Q_PROCESSIF, Q_PROCESSUNTIL, Q_PEEK, Q_TAKE, Q_CLEAR, Q_EMPTYQ,
 	Q_APPENDL, Q_PREPENDL, Q_INSERTL, Q_REMOVEL, Q_WAITFOR0, Q_DQNPUSH, Q_DQNPOP, Q_DISPATCH, Q_WAIT,
 	Q_NEWQ, Q_COPYCTOR, Q_COPYASSIGN, Q_MOVECTOR, Q_MOVEASSIGN, Q_SWAP, Q_DESTROY,
+	Q_ENQ_BURST, // 18..40 events with few distinct keys at once (sorting more than a handful of equal keys)
 	Q_MAX
 };
 
@@ -30,7 +31,7 @@ const char * kindName(int k)
 {
 	static const char * names[] = { "?", "enqueue", "process", "processOne", "processIf", "processUntil", "peekEvent", "takeEvent", "clearEvents", "emptyQueue",
 		"appendListener", "prependListener", "insertListener", "removeListener", "waitFor0", "dqnPush", "dqnPop", "dispatch", "wait",
-		"newQueue", "copyCtor", "copyAssign", "moveCtor", "moveAssign", "swap", "destroy" };
+		"newQueue", "copyCtor", "copyAssign", "moveCtor", "moveAssign", "swap", "destroy", "enqueueBurst" };
 	return (k > 0 && k < Q_MAX) ? names[k] : "?";
 }
 
@@ -833,6 +834,18 @@ struct Interp
 			lib->enqueue(slot, e, (op.c >> 2) & 1);
 			break;
 		}
+		case Q_ENQ_BURST: {
+			const int n = 18 + (((op.a % 23) + 23) % 23);
+			for(int i = 0; i < n && ! failed; ++i) {
+				Op one;
+				one.kind = Q_ENQ;
+				one.a = (op.b + i * i + (i >> 2)) & 1 ? 1 + ((op.a >> 3) & 1) : 0; // two or three distinct keys
+				one.b = (op.b * 31 + i * 17) % 1000;
+				one.c = op.c;
+				execOp(one, depth, self);
+			}
+			break;
+		}
 		case Q_PROCESS: case Q_PROCESSONE: case Q_PROCESSIF: case Q_PROCESSUNTIL: {
 			// nested consuming calls are generated only inside process/processOne (DESIGN C05)
 			if((int)frames.size() >= kMaxDepth || fuel <= 0) { log << "(skip)"; break; }
@@ -1183,6 +1196,7 @@ Grammar makeGrammar(const std::string & prop)
 	top.maxOps = 80;
 	top.kinds = {
 		{ Q_ENQ, "enqueue", 30, key, val, slot, -1, 0 },
+		{ Q_ENQ_BURST, "enqueueBurst", orderedOnly ? 3 : 0, ArgSpec(0, 45), val, slot, -1, 0 },
 		{ Q_PROCESS, "process", 6, ArgSpec(0, 0), ArgSpec(0, 0), slot, -1, 0 },
 		{ Q_PROCESSONE, "processOne", 6, ArgSpec(0, 0), ArgSpec(0, 0), slot, -1, 0 },
 		{ Q_PROCESSIF, "processIf", 8, ArgSpec(0, 5), ArgSpec(0, 400), ArgSpec(0, 15), 2, 3 },
